@@ -281,7 +281,7 @@ func (d *DefaultClientDispatcher) Resume() {
 		d.timer.Reset(d.timeout)
 	} else {
 		// Can dispatch a new request. Notifying message pump.
-		d.readyForDispatch <- true
+		d.signalReadyForDispatch()
 	}
 }
 
@@ -300,7 +300,18 @@ func (d *DefaultClientDispatcher) CompleteRequest(requestId string) {
 	d.pendingRequestState.DeletePendingRequest(requestId)
 	log.Debugf("removed request %v from front of queue", bundle.Call.UniqueId)
 	// Signal that next message in queue may be sent
-	d.readyForDispatch <- true
+	d.signalReadyForDispatch()
+}
+
+// signalReadyForDispatch tells the message pump that the next request may be sent.
+// The signal is a flag, not a counter: if one is waiting in the channel already, the pump will see it,
+// and blocking here would wedge the caller for good whenever the caller is the pump itself
+// (a request completed from the pump, because its write failed or it timed out).
+func (d *DefaultClientDispatcher) signalReadyForDispatch() {
+	select {
+	case d.readyForDispatch <- true:
+	default:
+	}
 }
 
 // ServerDispatcher contains the state and logic for handling outgoing messages on a server endpoint.
